@@ -17,12 +17,12 @@ Lemma G_same_tasks c s s' : G c s -> s_tasks s' = s_tasks s -> s_subs s' = s_sub
 Proof.
   intros (Hrd & Hk & Hh & Hp) Ht Hs Hl Hrd' Hk' Hnd HJ. unfold G. rewrite Ht, Hl. repeat split; try assumption.
   intros i t Hi. specialize (Hp i t Hi). destruct t as [? ? ? p|src ? ? p|? p]; try exact I.
-  destruct p as [| |q| |x|o|x]; destruct src as [r|]; cbn in *.
+  destruct p as [| |q| |x|o|x]; destruct src as [r|]; cbn [Ptask] in *.
   all: try exact I.
   - now rewrite Hs.
   - now rewrite Hs.
-  - destruct Hp as (Hc & Hsub & HJx). rewrite Hs. repeat split; try assumption. apply (HJ x (Some r)); assumption.
-  - destruct Hp as (Hc & Hsub & HJx). rewrite Hs. repeat split; try assumption. apply (HJ x None); assumption.
+  - destruct Hp as (Hc & Hsub & HJx). rewrite Hs. split; [assumption | split; [assumption|]]. apply (HJ x (Some r)); assumption.
+  - destruct Hp as (Hc & Hsub & HJx). rewrite Hs. split; [assumption | split; [assumption|]]. apply (HJ x None); assumption.
   - destruct Hp as (_ & _ & _ & Hd & _). now elim Hnd.
   - destruct Hp as (_ & _ & _ & Hd & _). now elim Hnd.
 Qed.
@@ -47,7 +47,7 @@ Proof.
     unfold keys_ok in Hk. rewrite Hr in Hk.
     destruct (i_len m <=? got + n); inversion Hs; subst; clear Hs.
     + (* the message is complete *)
-      apply (G_same_tasks c s); try reflexivity; try assumption; try (rewrite Hr; discriminate).
+      apply (G_same_tasks c s _ HG); [reflexivity | reflexivity | reflexivity | | | rewrite Hr; discriminate | ].
       * unfold rd_ok; cbn. split; [reflexivity|]. split; [eapply nth_error_lt; eassumption | tauto].
       * unfold keys_ok; cbn. exact Hk.
       * intros x src Hc Hsub (Hle & errs & He & Hok).
@@ -61,16 +61,16 @@ Proof.
         destruct (cmatch (x_chan x) m) eqn:Ecm.
         -- split; [assumption|]. exists []. split; [assumption | now left].
         -- split; [lia|]. exists []. split; [|now left]. rewrite expected_snoc by assumption. unfold mmatch. rewrite Hm, Ecm.
-           now rewrite app_nil_r in *.
-    + apply (G_same_tasks c s); try reflexivity; try assumption; try (rewrite Hr; discriminate).
+           rewrite !app_nil_r. rewrite app_nil_r in He. exact He.
+    + apply (G_same_tasks c s _ HG); [reflexivity | reflexivity | reflexivity | | | rewrite Hr; discriminate | ].
       * unfold rd_ok; cbn. exact I.
       * unfold keys_ok; cbn. exact Hk.
-      * intros x src _ _ HJ. apply (J_mono c s); [assumption | reflexivity |]. unfold err_done. now rewrite Hr.
+      * intros x src _ _ HJ. apply (J_mono c s); [assumption | unfold front; cbn; now rewrite Hr |]. unfold err_done. now rewrite Hr.
   - (* the fault *)
     destruct (s_rd s) as [got| |] eqn:Hr; try discriminate.
     destruct (s_broken s || (fpos c <=? s_pos s) || (length (msgs c) <=? s_next s)); inversion Hs; subst; clear Hs.
     unfold keys_ok in Hk. rewrite Hr in Hk.
-    apply (G_same_tasks c s); try reflexivity; try assumption; try (rewrite Hr; discriminate).
+    apply (G_same_tasks c s _ HG); [reflexivity | reflexivity | reflexivity | | | rewrite Hr; discriminate | ].
     + unfold rd_ok; cbn. split; [reflexivity | tauto].
     + unfold keys_ok; cbn. exact Hk.
     + intros x src _ _ HJ. apply (J_mono c s); [assumption | unfold front; cbn; now rewrite Hr |]. unfold err_done. now rewrite Hr.
@@ -95,7 +95,7 @@ Proof.
               existsb (key_eqb (key_of ch)) (del_nth j rest) = existsb (key_eqb (key_of ch)) rest).
     { intros ch Hsc E. rewrite (Hmem ch Hsc). replace (key_eqb (key_of ch) kj) with false; [reflexivity|].
       symmetry. destruct (key_eqb (key_of ch) kj) eqn:E2; [|reflexivity]. apply key_eqb_eq in E2. subst kj.
-      elim E. destruct ch; try reflexivity. now elim Hsc. }
+      elim E. destruct ch; reflexivity. }
     (* what happens to the J of a stream receiver whose inbox is not touched *)
     assert (Hskip : forall x src ts, x_chan x = chan_of_src src -> J c s x ->
               (chan_of kj = x_chan x -> match it with IMsg k => match nth_error (msgs c) k with Some m => cmatch (x_chan x) m = false | None => True end
@@ -120,18 +120,17 @@ Proof.
         + unfold err_done; cbn. rewrite Hr. destruct it; [tauto|]. rewrite !has_key_stream by assumption. now rewrite Hother. }
     destruct (match it with IMsg n => match nth_error (msgs c) n with Some m => kmatch kj m | None => false end | IErr _ => true end) eqn:Ed.
     + destruct (full c (chan_of kj) (s_tasks s)); inversion Hs; subst; clear Hs.
-      unfold G. cbn [s_tasks s_sublock set_rd]. repeat split.
-      * apply Hrd'.
-      * unfold keys_ok; cbn. exact Hk.
+      unfold G. cbn [s_tasks s_sublock set_rd]. split; [apply Hrd' | split; [unfold keys_ok; cbn; exact Hk | split]].
       * rewrite (sumf_map_eq hold1) by (intros; apply hold1_push). exact Hh.
       * intros i t' Hi. rewrite nth_error_map in Hi. destruct (nth_error (s_tasks s) i) as [t|] eqn:Hti; [|discriminate].
         inversion Hi; subst t'; clear Hi. specialize (Hp i t Hti).
-        destruct t as [? ? ? p|src ? ? p|? p]; try exact I. destruct p as [| |q| |x|o|x]; cbn in *; try exact I; try assumption.
-        -- destruct Hp as (Hc & Hsub & HJ).
+        destruct t as [? ? ? p|src ? ? p|? p]; try exact I.
+        destruct p as [| |q| |x|o|x]; try (destruct src; cbn [Ptask push_task] in *; (exact I || assumption)).
+        -- cbn [push_task]. apply Ptask_open. apply Ptask_open in Hp. destruct Hp as (Hc & Hsub & HJ).
            assert (Hsc : stream_chan (x_chan x)) by (rewrite Hc; apply stream_chan_src).
            unfold push_rx. destruct (chan_eqb (x_chan x) (chan_of kj)) eqn:Ech.
            ++ (* this receiver gets the item *)
-              apply chan_eqb_eq in Ech. cbn. repeat split; try assumption.
+              apply chan_eqb_eq in Ech. cbn [x_chan]. split; [assumption | split; [assumption|]].
               destruct (Hself (x_chan x) Hsc (eq_sym Ech)) as [Hin Hout].
               destruct HJ as (Hle & errs & He & Hok).
               destruct it as [k|e].
@@ -155,9 +154,9 @@ Proof.
                  rewrite Hfr. split; [assumption|]. exists [IErr (fkind c)]. split.
                  --- rewrite app_nil_r in He. now rewrite app_assoc, He.
                  --- right. split; [reflexivity|]. unfold err_done; cbn. now rewrite has_key_stream.
-           ++ repeat split; try assumption. eapply Hskip; [eassumption | assumption |]. intros E. rewrite E, chan_eqb_refl in Ech. discriminate.
-        -- destruct Hp as (_ & _ & _ & Hd & _). rewrite Hr in Hd. discriminate.
-    + inversion Hs; subst; clear Hs. apply (G_same_tasks c s); try reflexivity; try assumption; try (rewrite Hr; discriminate).
+           ++ split; [assumption | split; [assumption|]]. eapply Hskip; [eassumption | assumption |]. intros E. rewrite E, chan_eqb_refl in Ech. discriminate.
+        -- apply Ptask_end in Hp. destruct Hp as (_ & _ & _ & Hd & _). rewrite Hr in Hd. discriminate.
+    + inversion Hs; subst; clear Hs. apply (G_same_tasks c s _ HG); [reflexivity | reflexivity | reflexivity | | | rewrite Hr; discriminate | ].
       * apply Hrd'.
       * unfold keys_ok; cbn. exact Hk.
       * intros x src Hc _ HJ. eapply Hskip; [eassumption | assumption |]. intros E. destruct it as [k|e]; [|discriminate].
@@ -168,13 +167,13 @@ Proof.
     destruct (s_rd s) as [|it rest|] eqn:Hr; try discriminate. destruct rest; [|discriminate].
     unfold keys_ok in Hk. rewrite Hr in Hk.
     destruct it as [k|e]; inversion Hs; subst; clear Hs.
-    + apply (G_same_tasks c s); try reflexivity; try assumption; try (rewrite Hr; discriminate).
+    + apply (G_same_tasks c s _ HG); [reflexivity | reflexivity | reflexivity | | | rewrite Hr; discriminate | ].
       * exact I.
       * unfold keys_ok; cbn. exact Hk.
       * intros x src _ _ HJ. apply (J_mono c s); [assumption | | unfold err_done; now rewrite Hr].
         unfold rd_ok in Hrd. rewrite Hr in Hrd. destruct Hrd as (Hnx & Hklt & _). unfold front; cbn. rewrite Hr.
         destruct (nth_error (msgs c) k); cbn; assumption.
-    + apply (G_same_tasks c s); try reflexivity; try assumption; try (rewrite Hr; discriminate).
+    + apply (G_same_tasks c s _ HG); [reflexivity | reflexivity | reflexivity | | | rewrite Hr; discriminate | ].
       * exact I.
       * exact I.
       * intros x src _ _ HJ. apply (J_mono c s); [assumption | unfold front; cbn; now rewrite Hr | intros _; exact I].
